@@ -54,9 +54,11 @@ func (zp *ZoneParser) generate(l lex) (RR, bool) {
 	}
 
 	// _BLANK
-	l, ok = zp.c.Next()
-	if !ok || l.value != zBlank {
+	if bl, ok := zp.c.Next(); !ok {
+		// end of input: report the position of the range, the end-of-input token has none
 		return zp.setParseError("garbage after $GENERATE range", l)
+	} else if bl.value != zBlank {
+		return zp.setParseError("garbage after $GENERATE range", bl)
 	}
 
 	// Create a complete new string, which we then parse again.
